@@ -778,6 +778,37 @@ def gen_coords_kwargs(job, workdir):
 REJECT_TYPES = (IOError, OSError, NotImplementedError)
 
 
+def _pre_call_spec(job, workdir, kw):
+    from polyply.src.gen_coords import gen_coords
+    from vermouth.file_writer import DeferredFileWriter
+    for fn, txt in topgen.render_top(job["pre_spec"]).items():
+        with open(os.path.join(workdir, fn), "w") as fh:
+            fh.write(txt)
+    kw2 = {"toppath": kw["toppath"], "outpath": Path(workdir) / "pre_out.gro", "name": "verif"}
+    if "box" in kw:
+        kw2["box"] = kw["box"]
+    else:
+        kw2["density"] = kw.get("density")
+    random.seed(54321)
+    np.random.seed(54321)
+    cwd = os.getcwd()
+    os.chdir(workdir)
+    try:
+        gen_coords(**kw2)
+    except Exception:
+        try:
+            DeferredFileWriter().close()
+        except Exception:
+            pass
+    finally:
+        os.chdir(cwd)
+        for fn, txt in topgen.render_top(job["spec"]).items():
+            p = os.path.join(workdir, fn)
+            with open(p, "w") as fh:
+                fh.write(txt)
+            os.utime(p, (1, 1))
+
+
 def _pre_call(job, workdir, kw):
     from polyply.src.gen_coords import gen_coords
     from vermouth.file_writer import DeferredFileWriter
@@ -836,6 +867,10 @@ def run(job, props=("C03", "C04", "C05", "C06", "C07", "C15", "C17"), keep_dir=N
             DeferredFileWriter().close() if hasattr(DeferredFileWriter(), "close") else None
         except Exception:
             pass
+        if job.get("pre_spec") is not None:
+            # history: an earlier gen_coords call in this process read ANOTHER topology from the same file names
+            _pre_call_spec(job, workdir, kw)
+            ctx.probe("earlier_call_same_topology_paths")
         if job.get("pre_coord_text") is not None and job.get("coord_text") is not None:
             # history: an earlier gen_coords call in this process read ANOTHER structure from the same input path
             _pre_call(job, workdir, kw)
